@@ -1,0 +1,33 @@
+//go:build verif
+
+// Contracts for package metrics, read by /verif/qv (comment-only file).
+
+package metrics
+
+//@ define accInputsOK(yp, yt) := yp != nil && yt != nil && rank(yp) == 1 && rank(yt) == 1 && dim(yp, 0) == dim(yt, 0)
+//@ define accInv(c) := 0 <= c.correct && c.correct <= c.total
+
+//@ func NewAccuracy
+//@   public
+//@   returns fresh
+//@   ensures[C19] c != nil && c.total == 0 && c.correct == 0
+
+//@ func Accuracy.validateInputs
+//@   ensures[C19,C09] iff(err == nil, accInputsOK(yp, yt))
+
+// C19: accepted calls add the batch size and the number of matching positions; rejected calls write nothing
+//@ func Accuracy.Accumulate
+//@   public
+//@   requires accInv(c) && imp(yp != nil, tinv(yp)) && imp(yt != nil, tinv(yt))
+//@   modifies Accuracy.total, Accuracy.correct
+//@   ensures[C19,C09] iff(err == nil, accInputsOK(yp, yt))
+//@   ensures[C19] imp(err != nil, forallA(a, a.total == old(a.total) && a.correct == old(a.correct)))
+//@   ensures[C19] imp(err == nil, c.total == old(c.total) + dim(yp, 0) && c.correct == old(c.correct) + matchCount(yp, yt))
+//@   ensures[C19] forallA(a, a == c || (a.total == old(a.total) && a.correct == old(a.correct)))
+// (the disjunct only names the count so that its defining axiom is instantiated; it is false by 0 <= matchCount)
+//@   ensures[C19] accInv(c) || matchCount(yp, yt) < 0
+
+//@ func Accuracy.Result
+//@   public
+//@   requires accInv(c)
+//@   ensures[C19,C09] err == nil && result == ite(c.total == 0, 0.0, real(c.correct) / real(c.total)) && 0 <= result && result <= 1
